@@ -5,7 +5,7 @@ import os
 import sys
 import traceback
 
-sys.path.insert(0, '/verif')
+sys.path.insert(0, os.environ.get('VERIF_ROOT', '/verif'))
 from harness import common
 
 
@@ -32,7 +32,7 @@ def shake_load_factor(ctx) -> None:
 def anchored_files(prop: str) -> list[str]:
     import glob
     import json
-    for line in open('/verif/properties.jsonl'):
+    for line in open(os.path.join(os.environ.get('VERIF_ROOT', '/verif'), 'properties.jsonl')):
         p = json.loads(line)
         if p['id'] == prop:
             out = []
